@@ -59,3 +59,8 @@ claim("C01", "model_checking",
       "Each world builds a context and two real sockets connected over the ZMTP session path (in-memory duplex streams attached through the tcp/ipc post-accept/connect code, behind a harness-owned link that can hold the handshake half-way and force partial writes) or over inproc, issues all sends back-to-back and receives per the pacing; the received sequence must equal the accepted sequence byte for byte, blocking sends must never fail or stay blocked, refused sends must be absent.",
       "single-threaded deterministic runtime: interleavings are those the script dimensions expose (first-send moment, pacing, held handshake, 64-byte link buffer), not multi-thread schedules inside actors; kernel tcp/ipc sockets and TCP_CORK are not involved (C20's matrix binds the duplex path to real tcp); sizes from boundary alphabets (0..5000 for scaled-down limits, 100 KiB..1 MiB for default limits)",
       "5/C01")
+claim("C02", "model_checking",
+      "E3: exhaustive enumeration of multipart shapes (frame counts incl. 253..257 and 300, empty frames in every position, sizes across 255/256) x 5 socket pairs x 2 transports x every cyclic recv()/recv_multipart() pattern up to length 3 (4); and of every event script up to depth 5 (6) over {peer sends 3-frame message, second peer attaches / detaches / sends, recv, recv_multipart} in deterministic whole-stack worlds",
+      "Every world runs the real sockets end to end; the frames handed to the application, cut at frames without MORE, must be exactly the sent messages (whole, contiguous, in order, correctly flagged), over-long messages must be refused with an error or close the connection, and no task may panic — including when another peer attaches or detaches while a message is half read.",
+      "deterministic single-thread worlds (attach/detach land between API calls, at quiescence points); ZMTP path over in-memory duplex streams; frames are 0..256 bytes",
+      "5/C02")
